@@ -40,9 +40,27 @@ def explain(evs, f):
     elif rec["ev"] == "Final":
         full = set(rec["acked"])
         pairs = [(a, full - ids(v["live"])) for a, v in rec["views"].items() if rec["ctl"]["replicas"].get(a) == "RW"]
+    elif rec["ev"] == "Read":
+        # a read served by the rebuilt replica: judged against every replica that went through a rebuild
+        missing = {w for w in rec["acked"] if not (w - 1 < len(rec["out"]) and rec["out"][w - 1] == w)}
+        rebuilt = {a for e in evs if e["seq"] < rec["seq"] for a, m in ((e.get("ctl") or {}).get("replicas") or {}).items() if m == "WO"}
+        if not missing or not rebuilt:
+            return "unexplained"
+        for target in sorted(rebuilt):
+            if _stale_rmw(evs, target, missing):
+                return "stale-rmw"
+        return "unexplained"
     else:
         return "other"
     for target, missing in pairs:
+        if missing and not _stale_rmw(evs, target, missing):
+            return "unexplained"
+    # (a mismatch without any missing acknowledged write is something else)
+    return "stale-rmw" if any(m for _, m in pairs) else "unexplained"
+
+
+def _stale_rmw(evs, target, missing):
+    if True:
         for m in missing:
             wrote = [e for e in evs if e["ev"] == "Write" and e.get("res") == "ok"]
             mine = [e for e in wrote if e["w"] == m]
@@ -50,8 +68,8 @@ def explain(evs, f):
             later = [e for e in wrote if e["w"] != m and (e["w"] - 1) // 8 == (m - 1) // 8
                      and e["ctl"]["replicas"].get(target) == "WO" and e["seq"] > (mine[0]["seq"] if mine else 0)]
             if not (down and later):
-                return "unexplained"
-    return "stale-rmw"
+                return False
+    return True
 
 
 def run(prop, tier, seed, replay=None):
@@ -161,7 +179,7 @@ def run(prop, tier, seed, replay=None):
                 continue
             evs = by_t[f["t"]]
             ctx = kind
-            if set(mine) & {"PromotedIdentical.live", "AckedHeld", "AckedHeld.final", "ReplicasIdentical.final"}:
+            if set(mine) & {"PromotedIdentical.live", "AckedHeld", "AckedHeld.final", "ReplicasIdentical.final", "ReadFresh"}:
                 ctx = explain(evs, f)
             sig = dict(rule=mine, site=f["ev"], context=ctx)
             frec = [e for e in evs if e["seq"] == f["seq"]]
@@ -201,8 +219,11 @@ def run(prop, tier, seed, replay=None):
                     conclusive += 1
             else:
                 fin = [e for e in evs if e["ev"] == "CloneFinal"]
+                spawn = [e for e in evs if e["ev"] == "CloneSpawn"]
                 if fin and (fin[0]["cctl"]["replicas"].get("k1") == "RW"):
                     conclusive += 1
+                elif fin and spawn and spawn[0].get("failreload"):
+                    conclusive += 1     # a clone that must fail, observed to its end
             if len(samples) < 2:
                 samples.append([dict(ev=e["ev"], **{k: e[k] for k in ("a", "w", "res", "name", "target", "source", "status") if k in e})
                                 for e in evs[:40]])
@@ -210,7 +231,7 @@ def run(prop, tier, seed, replay=None):
             raise HarnessError("no scenario reached its target state (promotion after a kill / clone RW) in time")
         coverage = dict(states=mc_states or 1, transitions=mc_trans or 1, traces_validated_against_impl=len(by_t), samples=samples,
                         evaluations=len(by_t), distinct_nontrivial=max(conclusive, 0),
-                        rule="one evaluation = one cluster scenario with real processes (bootstrap, writes, kill, restart, rebuild under foreground writes / clone with polling); non-trivial = reached a promotion after a kill (C07) or a clone that became RW (C19)",
+                        rule="one evaluation = one cluster scenario with real processes (bootstrap, writes, kill, restart, rebuild under foreground writes / clone with polling); non-trivial = reached a promotion after a kill (C07) or a clone that became RW / a clone whose reload was made to fail, observed to its end (C19)",
                         promotions_observed=promos, inconclusive=len(by_t) - conclusive, other_rule_failures=others[:10],
                         records_validated=result["records"], model_checking_runs=mc_runs, exhaustive=False)
         if l1:
